@@ -159,7 +159,7 @@ def built_cases(quick):
 
 def recv_spec(ent, wrong_key=False):
     ''' receiver description (see bpsecdrive.receiver_from_spec) for a wire entry / a replay dict '''
-    return dict(profile=ent['profile'], extra=ent.get('extra'), accept=ent.get('accept'), wrong_key=bool(wrong_key))
+    return dict(profile=ent['profile'], extra=ent.get('extra'), accept=ent.get('accept'), wrong_key=(wrong_key or False))
 
 
 def multi_bib_wires(all_specs):
@@ -606,11 +606,109 @@ def suite_mac_kw(suite):
                  replay_obj=dict(replay, alt_hex=alt.hex()))
 
 
+# --------------------------------------------------------------------------- suite: signer certificates (Sign1)
+
+CERT_VARIANTS = ['good', 'untrusted_ca', 'other_node', 'no_san', 'san_dns_only', 'no_eku', 'wrong_eku', 'no_ku_ds', 'expired', 'not_yet']
+CERT_PKI_FILE = os.path.join(CORPUS, 'C12_pki.json')      # built by prop-c12 exactly as test_app_bpsec.py builds certificates
+_CERT_PKI = {}
+
+
+def cert_pki():
+    ''' CA ca1 (trusted), CA ca2 (not trusted) and one ES256 end-entity certificate per variant for the security
+    source dtn://src/.  Only 'good' authenticates that source: id-on-bundleEID SAN naming it, digitalSignature,
+    id-kp-bundleSecurity, valid at the bundle creation time, chain to the trusted CA. '''
+    if not _CERT_PKI:
+        if os.path.exists(CERT_PKI_FILE):
+            with open(CERT_PKI_FILE) as infile:
+                _CERT_PKI.update(json.load(infile))
+        if sorted(_CERT_PKI.get('end', {})) != sorted(CERT_VARIANTS):
+            import check_C12      # regenerates the corpus file
+            _CERT_PKI.clear()
+            _CERT_PKI.update(check_C12.pki_data())
+    return _CERT_PKI
+
+
+def signer_pki(variant):
+    data = cert_pki()
+    ent = data['end'][variant]
+    return dict(ca_cert=data[ent['ca']]['ca_cert'], end_cert=ent['end_cert'], end_key=ent['end_key'])
+
+
+def chain_to_thumbprint(raw):
+    ''' additional unprotected header x5chain (33) -> x5t (34: [SHA-256, thumbprint of the end-entity certificate]),
+    RFC 9360; the header is unprotected, the signature stays what the agent computed '''
+    import hashlib
+    items = [it for (it, _r, _o) in sd.split_bundle(raw)]
+    for item in items[1:]:
+        if item[0] != SEC_TYPE:
+            continue
+        asb = sd.asb_decode(item[4])
+        for par in asb['params']:
+            if par[0] == 4:
+                hdr = cbor2.loads(par[1])
+                chain = hdr.pop(33)
+                hdr[34] = [-16, hashlib.sha256(chain if isinstance(chain, bytes) else chain[0]).digest()]
+                par[1] = cbor2.dumps(hdr)
+        item[4] = sd.asb_encode(asb)
+    return sd.join_bundle(items)
+
+
+def cert_receiver(cert):
+    ''' trusts CA one only; for x5t lookup the signer's certificate (and its issuer) are in the certificate store '''
+    data = cert_pki()
+    node = sd.SecNode(sd.DST_ID, accept_after_verify=bool(cert.get('accept')))
+    node.add_pki(dict(ca_cert=data['ca1']['ca_cert'], end_cert=data['end']['good']['end_cert'], end_key=data['end']['good']['end_key']), signer=False)
+    if cert['x5'] == 'x5t':
+        node.add_cert_to_store(signer_pki(cert['variant']))
+    return node
+
+
+def check_cert(suite, rep, out, vd):
+    ''' oracle: only a certificate that authenticates the claimed security source is the right key '''
+    chk = suite.chk
+    variant = rep['cert']['variant']
+    if variant == 'good':
+        if not (out['delivered'] and vd['bib'] == [None]):
+            chk.fail(signature='C03 / unmodified bundle does not verify at a receiver holding the right key',
+                     what='Sign1 BIB, signer certificate authenticates the source (%s): delivered=%r verify_bib=%r' % (rep['cert']['x5'], out['delivered'], vd['bib']),
+                     replay_obj=rep)
+    elif out['delivered'] or vd['bib'] != [sd.FAILED_SEC] or not out['sec_failure']:
+        chk.fail(signature='C03 / signature accepted under a certificate that does not authenticate the security source: %s' % variant,
+                 what='Sign1 BIB whose signer certificate is %s (%s): delivered=%r verify_bib=%r sec_failure=%r' % (
+                     variant, rep['cert']['x5'], out['delivered'], vd['bib'], out['sec_failure']), replay_obj=rep)
+
+
+def suite_certs(suite):
+    chk = suite.chk
+    spec = specs(True)['S2']
+    for variant in CERT_VARIANTS:
+        src = sd.SecNode(sd.SRC_ID, include_chain=True)
+        src.add_pki(signer_pki(variant), signer=True)
+        src.add_policy('bib', b'sign', (1,))
+        wire_chain = src.send(spec)
+        for (x5, accept) in (('x5chain', False), ('x5t', False), ('x5chain', True)):
+            wire = wire_chain if x5 == 'x5chain' else chain_to_thumbprint(wire_chain)
+            cert = dict(variant=variant, x5=x5, accept=accept)
+            rep = dict(wire_hex=wire.hex(), alt_hex=wire.hex(), profile='sign1-es256', label='cert:%s:%s' % (variant, x5),
+                       payload_hex=spec['payload'].hex(), wire_id='cert:%s' % variant, cert=cert)
+            node = cert_receiver(cert)
+            out = node.recv(wire)
+            vd = node.verify_direct(wire)
+            chk.case(ident=('cert', variant, x5, accept), nontrivial=True,
+                     sample=dict(suite='cert', variant=variant, x5=x5, accept=accept, delivered=out['delivered'], verify_bib=vd['bib']))
+            suite.count('signer_certificate', variant)
+            suite.count('key_lookup', x5)
+            check_cert(suite, rep, out, vd)
+
+
 # --------------------------------------------------------------------------- corpus + replay
 
 def run_one(replay):
     ''' Re-run exactly one stored input; returns (class, outcome). '''
-    node = sd.receiver_from_spec(recv_spec(replay, wrong_key=replay.get('wrong_key')))
+    if replay.get('cert'):
+        node = cert_receiver(replay['cert'])
+    else:
+        node = sd.receiver_from_spec(recv_spec(replay, wrong_key=replay.get('wrong_key')))
     wire = bytes.fromhex(replay['wire_hex'])
     alt = bytes.fromhex(replay['alt_hex'])
     out = node.recv(alt)
@@ -671,7 +769,9 @@ def replay_main(chk, path):
     case = dict(label=rep['label'], alt=bytes.fromhex(rep['alt_hex']), kind='replay')
     out['direct'] = dict(bib=vd['bib'], bcb=vd['bcb'], error=vd['error'])
     out['payload'] = out['payload'].hex() if out['payload'] is not None else None
-    if rep.get('wrong_key'):
+    if rep.get('cert'):
+        check_cert(suite, rep, out, vd)
+    elif rep.get('wrong_key'):
         if out['delivered'] or not vd['bib'] or any(val != sd.FAILED_SEC for val in vd['bib']):
             chk.fail(signature='C03 / wrong key accepted or failure not reported', what='replay', replay_obj=rep)
     elif cls[0] == 'unaltered':
@@ -709,6 +809,7 @@ def main():
     fin_structure = suite_structure(chk, [ent for ent in wires if ent['source'] == 'agent'], node, batch)
     suite_baseline(suite, wires)
     suite_mac_kw(suite)
+    suite_certs(suite)
     trace('baseline done')
     fin_alt = suite_alterations(suite, wires, quick, batch)
     trace('sweeps done; %d model evaluations' % len(batch.terms))
@@ -724,7 +825,9 @@ def main():
               'Model.BpSec.direct_aad, non-trivial = the real code returned octets for a non-empty scope; e2e: for each of %d bundles '
               '(BIB applied by the real agent: MAC0 HMAC-256/384/512, Sign1 ES256/ES384/PS512, one BIB with three targets; or by the '
               'independent source with 8 AAD scopes / targets, and two / three separate BIBs from different security sources over different '
-              'targets; verifiers with accept_after_verify on and off) every single-field alteration (cbor2 decode, one item changed/dropped/added, CRCs re-fixed, plus EID-syntax '
+              'targets; verifiers with accept_after_verify on and off); signer-certificate dimension for Sign1: 10 certificate variants (names the '
+              'source / another node / no bundle-EID SAN / DNS-only SAN / untrusted CA / missing or wrong EKU / no digitalSignature / expired / '
+              'not yet valid) x key lookup by x5chain and x5t every single-field alteration (cbor2 decode, one item changed/dropped/added, CRCs re-fixed, plus EID-syntax '
               'variants with and without CRC re-fix) and %s single-bit flips (CRCs re-fixed over the altered octets), each run through the real '
               'receive path and verify_bib; distinct = distinct altered octets; non-trivial = class must_fail / must_pass / either by the '
               'property text (malformed / stripped / no-security-block cases are counted but trivial)') % (
